@@ -639,4 +639,25 @@ func genC03(w *bufio.Writer, tier string, rng *rand.Rand) {
 	for _, lim := range [][2]int{{50, 25}, {50, 25}, {10, 40}, {1000000, 1000000}} {
 		denseMWU(w, rng, pick(tier, 10, 150), lim[0], lim[1])
 	}
+	// every tie vector, allocation and alternative on small pools (two- and three-valued data,
+	// samples tied entirely within themselves, ...), under the default limits and with the exact
+	// method switched off
+	for N := 2; N <= pick(tier, 6, 8); N++ {
+		compositions(N, 1, func(t []int) {
+			tt := append([]int(nil), t...)
+			allocations(tt, func(r []int) {
+				n1 := sumI(r)
+				if n1 == 0 || n1 == N {
+					return
+				}
+				x1, x2 := samplesFrom(rng, tt, r)
+				for alt := -1; alt <= 1; alt++ {
+					emit(x1, x2, alt, 50, 25)
+					if rng.Intn(3) == 0 {
+						emit(x1, x2, alt, 0, 0)
+					}
+				}
+			})
+		})
+	}
 }
